@@ -620,7 +620,17 @@ def corpus_b():
         ("method_collision", "dsl", "Dev", [R("aB1c", 0), R("ab1c", 1)]),
         ("bad_device_name", "dsl", "my_dev", [R("r", 0)]),
     ]
+    # an object named `config` INSIDE a block is an ordinary object in every syntax (the global-config entry is a key of the
+    # top-level map only): a ref to it resolves, and it collides with a `Config` elsewhere (seeds C16-10 / C14-11 dropped it in
+    # the manifest front end; the verdicts are written down because the model only sees what the front end kept)
+    for j, syn in enumerate(("json", "yaml", "toml", "dsl")):
+        out.append((f"nested_config_ref_{syn}", syn, "Dev", [adef.mk_block("Bk", [R("config", 1)], address_offset=100),
+                                                             adef.mk_ref("Cs", "config", {"kind": "register", "address": 9})]))
+        out.append((f"nested_config_dup_{syn}", syn, "Dev", [adef.mk_block("Bk", [R("config", 1)], address_offset=100), R("Config", 5)]))
     expect = {"d11_direct": "error:ref_recursive:B|A", "d11_indirect": "error:ref_recursive:B|C"}
+    for syn in ("json", "yaml", "toml", "dsl"):
+        expect[f"nested_config_ref_{syn}"] = "ok"
+        expect[f"nested_config_dup_{syn}"] = "error:dup_object:Config"
     # every cyclic / near-miss shape alone, in all four syntaxes round-robin, refs spelled differently from the declarations
     for j, shape in enumerate(sorted(CYC_SHAPES)):
         decl = lambda k: "Cyc" + k.upper()
